@@ -33,6 +33,8 @@ type willSpec struct {
 	P string   `json:"p"`
 	Q int      `json:"q"`
 	R bool     `json:"r"`
+	// Size > 0 pads the will payload to that many bytes (a CONNECT packet may legally be much larger than 64 KiB)
+	Size int `json:"size,omitempty"`
 }
 type fq struct {
 	F []string `json:"f"`
@@ -117,6 +119,15 @@ func (x *runner) settledOnce() (bool, string) {
 		sid := fmt.Sprintf("s%d", c)
 		if cl.Node.Down || cl.Hostile() {
 			continue // nothing is expected of a failed node, and an offender may be in any state
+		}
+		if !cl.Established() && !cl.Ended() && w.Count("reg.create:"+sid) > 0 && cl.Conn.ClientClosed() {
+			// a client that hung up before it saw its CONNACK, although the broker had registered its session: the
+			// teardown of that session is under way - wait for it like for any other
+			if w.Count("shutdown.done:"+sid) == 0 || !cl.ClosedByBroker() {
+				return false, fmt.Sprintf("teardown of c%d (registered, never acknowledged)", c)
+			}
+			cl.MarkEnded()
+			continue
 		}
 		if cl.Established() && !cl.Ended() {
 			if w.Count("shutdown.done:"+sid) > 0 {
@@ -381,7 +392,14 @@ func (x *runner) own(o op) {
 	}
 	o.NoWait = true
 	x.step(o)
+	if o.Op == "close" {
+		return // the broker notices when it gets to it (its handler may be parked at a gate)
+	}
 	sid := fmt.Sprintf("s%d", o.C)
+	patience := 5 * time.Second
+	if o.Op == "send" {
+		patience = time.Second // a packet sent behind a parked handler is simply not looked at yet
+	}
 	ok := x.w.WaitFor(func() bool {
 		if cl.ClosedByBroker() {
 			return true
@@ -390,8 +408,8 @@ func (x *runner) own(o op) {
 			return cl.CountRecv(want) > before
 		}
 		return x.w.Count("conn.pkt.done:"+sid) >= cl.Sent()
-	}, 5*time.Second)
-	if !ok {
+	}, patience)
+	if !ok && o.Op != "send" {
 		x.r.Emit(rec.Ev{"op": "race.note", "what": "no answer within 5 s", "to": o.Op, "c": o.C})
 	}
 	if o.Op == "pub" {
@@ -432,8 +450,12 @@ func (x *runner) step(o op) {
 		var will *mq.Will
 		ev := rec.Ev{"kind": "CONNECT", "client": o.Client, "user": o.User, "pass": o.Pass, "ka": o.KA, "haswill": o.Will != nil}
 		if o.Will != nil {
-			will = &mq.Will{Topic: w.Register(o.Will.T), Payload: []byte(o.Will.P), QoS: o.Will.Q, Retain: o.Will.R}
-			ev["will"] = o.Will
+			payload := o.Will.P
+			if o.Will.Size > len(payload) {
+				payload = payload + "|" + strings.Repeat("x", o.Will.Size-len(payload)-1)
+			}
+			will = &mq.Will{Topic: w.Register(o.Will.T), Payload: []byte(payload), QoS: o.Will.Q, Retain: o.Will.R}
+			ev["will"] = willSpec{T: o.Will.T, P: node.PayloadID([]byte(payload)), Q: o.Will.Q, R: o.Will.R}
 		} else {
 			ev["will"] = willSpec{T: []string{}}
 		}
@@ -694,6 +716,9 @@ func (x *runner) step(o op) {
 			}
 		} else {
 			<-doneA
+		}
+		if !isParked {
+			w.Gates.Release(o.Hold) // A never came by: the gate must not catch somebody else
 		}
 		x.r.Emit(rec.Ev{"op": "race.parked", "hold": o.Hold, "parked": isParked})
 		for _, b := range o.B {
